@@ -67,6 +67,31 @@ Theorem C11_close_releases : C11_close_releases_full.
 Proof. exact close_releases. Qed.
 Print Assumptions C11_close_releases.
 
+(* "the closer is at the step that readies it" is not an empty promise: that step is ENABLED in every state and
+   closes closeNotifyCh - in particular Stream.close notifies BEFORE it waits for a running callback goroutine *)
+Theorem C11_close_helper_enabled : forall s,
+  ppc s = true \/ lc_mid_open (lc s) = true \/ dpc s = true ->
+  exists e, is_reader_ev e = false /\ closeN (step s e) = true.
+Proof. exact close_helper_enabled. Qed.
+Print Assumptions C11_close_helper_enabled.
+
+(* REGRESSION (the order of Stream.close before the repair: Wait ; clean ; notify): Close reads
+   callbackInProcess == 0, data arrives, OnData parks in a read, close() wins its CAS and waits for the callback
+   goroutine before it would notify: the reader is parked on a CLOSED stream with no ready branch and every
+   closer step is blocked - Close waits for OnData, OnData waits for Close (harness scenario
+   close-vs-callback-start, signature C11:close-waits-for-ondata-that-waits-for-close-notification) *)
+Example C11_regression_old_close_order_deadlocks :
+  let s := run_old_close witness_close_waits_for_ondata init in
+  rd s = RParked /\ ss s = SClosed /\ wake_enabled s = false /\ lc s = LCased SOpen /\
+  step_old_close s LClean = s /\ step_old_close s LNotify = s /\ step_old_close s PClose1 = s /\
+  step_old_close s PClose2 = s /\ step_old_close s LDefer1 = s /\ step_old_close s LDefer2 = s /\ step_old_close s EFin = s.
+Proof. exact old_close_order_deadlocks. Qed.
+
+Example C11_regression_new_close_order_releases :
+  let s := run (witness_close_waits_for_ondata ++ [LNotify; RWake BClose; RStep; LClean]) init in
+  res s = Some RErrClosed /\ lc s = LIdle /\ closeN s = true.
+Proof. exact new_close_order_releases. Qed.
+
 (* ... and a ready branch stays ready, and the reader parked, under every step of every other thread *)
 Theorem C11_wake_stable : forall s e, rd s = RParked -> wake_enabled s = true -> is_reader_ev e = false ->
   rd (step s e) = RParked /\ wake_enabled (step s e) = true.
